@@ -20,14 +20,18 @@ EXTENDS Naturals, Sequences, TLC, FiniteSets, Json
 CONSTANTS MaxRecs
 FCands == { [name |-> "fA", addr |-> 2, size |-> 4, psize |-> 4], [name |-> "fB", addr |-> 6, size |-> 2, psize |-> 0],
             [name |-> "fC", addr |-> 9, size |-> 2, psize |-> 8], [name |-> "fZ", addr |-> 8, size |-> 0, psize |-> 1] }       \* fZ: zero size, ignored
-PCands == { [name |-> "p1", addr |-> 1, psize |-> 1], [name |-> "p6", addr |-> 6, psize |-> 2], [name |-> "p8", addr |-> 8, psize |-> 3] }
+PCands == { [name |-> "p0", addr |-> 0, psize |-> 5], [name |-> "p1", addr |-> 1, psize |-> 1], [name |-> "p6", addr |-> 6, psize |-> 2], [name |-> "p8", addr |-> 8, psize |-> 3] }
 \* line records of fA (file 1); a zero-size line is dropped
-LCands == { [addr |-> 2, size |-> 1, line |-> 10], [addr |-> 3, size |-> 2, line |-> 11], [addr |-> 5, size |-> 1, line |-> 12], [addr |-> 3, size |-> 0, line |-> 99] }
+\* file 1 has a FILE record, file 7 has none: such a record still counts, it only cannot name its file
+LCands == { [addr |-> 2, size |-> 1, line |-> 10, file |-> 1], [addr |-> 3, size |-> 2, line |-> 11, file |-> 1], [addr |-> 5, size |-> 1, line |-> 12, file |-> 1], [addr |-> 3, size |-> 0, line |-> 99, file |-> 1],
+            [addr |-> 2, size |-> 1, line |-> 13, file |-> 7], [addr |-> 5, size |-> 1, line |-> 14, file |-> 7] }
 \* inlinees of fA: depth, one or two ranges, call line, origin id
-ICands == { [id |-> "i0a", depth |-> 0, ranges |-> <<<<2, 2>>>>, cline |-> 20, origin |-> 1],
-            [id |-> "i0b", depth |-> 0, ranges |-> <<<<4, 1>>, <<5, 1>>>>, cline |-> 22, origin |-> 2],      \* a multi-range record
-            [id |-> "i1a", depth |-> 1, ranges |-> <<<<3, 1>>>>, cline |-> 21, origin |-> 2],
-            [id |-> "i2a", depth |-> 2, ranges |-> <<<<3, 1>>>>, cline |-> 23, origin |-> 1] }
+ICands == { [id |-> "i0a", depth |-> 0, ranges |-> <<<<2, 2>>>>, cline |-> 20, origin |-> 1, cfile |-> 1],
+            [id |-> "i0b", depth |-> 0, ranges |-> <<<<4, 1>>, <<5, 1>>>>, cline |-> 22, origin |-> 2, cfile |-> 1],      \* a multi-range record
+            [id |-> "i1a", depth |-> 1, ranges |-> <<<<3, 1>>>>, cline |-> 21, origin |-> 2, cfile |-> 1],
+            [id |-> "i2a", depth |-> 2, ranges |-> <<<<3, 1>>>>, cline |-> 23, origin |-> 1, cfile |-> 1],
+            [id |-> "i0x", depth |-> 0, ranges |-> <<<<2, 2>>>>, cline |-> 24, origin |-> 1, cfile |-> 7],                \* call sites in a file without FILE record
+            [id |-> "i1x", depth |-> 1, ranges |-> <<<<3, 1>>>>, cline |-> 25, origin |-> 2, cfile |-> 7] }
 \* STACK WIN records (only their parameter sizes matter here)
 WCands == { [kind |-> "fd", addr |-> 3, size |-> 2, psize |-> 12], [kind |-> "fpo", addr |-> 2, size |-> 3, psize |-> 16] }
 Origins == <<"o1", "o2">>
@@ -39,8 +43,8 @@ Init == funcs = {} /\ pubs = {} /\ lines = {} /\ inls = {} /\ wins = {}
 AddFunc == Total < MaxRecs /\ \E f \in FCands \ funcs : funcs' = funcs \cup {f} /\ UNCHANGED <<pubs, lines, inls, wins>>
 AddPublic == Total < MaxRecs /\ \E p \in PCands \ pubs : pubs' = pubs \cup {p} /\ UNCHANGED <<funcs, lines, inls, wins>>
 HasA == \E f \in funcs : f.name = "fA"
-AddLine == Total < MaxRecs /\ HasA /\ \E l \in LCands \ lines : lines' = lines \cup {l} /\ UNCHANGED <<funcs, pubs, inls, wins>>
-AddInline == Total < MaxRecs /\ HasA /\ \E i \in ICands \ inls : inls' = inls \cup {i} /\ UNCHANGED <<funcs, pubs, lines, wins>>
+AddLine == Total < MaxRecs /\ HasA /\ \E l \in LCands \ lines : (\A m \in lines : m.addr # l.addr \/ m.size = 0 \/ l.size = 0) /\ lines' = lines \cup {l} /\ UNCHANGED <<funcs, pubs, inls, wins>>
+AddInline == Total < MaxRecs /\ HasA /\ \E i \in ICands \ inls : (\A j \in inls : j.depth # i.depth \/ j.ranges # i.ranges) /\ inls' = inls \cup {i} /\ UNCHANGED <<funcs, pubs, lines, wins>>
 AddWin == Total < MaxRecs /\ \E w \in WCands \ wins : wins' = wins \cup {w} /\ UNCHANGED <<funcs, pubs, lines, inls>>
 Next == AddFunc \/ AddPublic \/ AddLine \/ AddInline \/ AddWin
 Spec == Init /\ [][Next]_vars
@@ -58,12 +62,13 @@ PubFor(a) == LET P == {p \in pubs : p.addr <= a} IN
    IF P = {} THEN {} ELSE
    LET p == CHOOSE q \in P : \A r \in P : r.addr <= q.addr IN
    IF \E f \in funcs : f.size > 0 /\ p.addr <= f.addr /\ f.addr < a THEN {} ELSE {p}
-InnerLine(a) == IF LineAt(a) = {} THEN [file |-> "none", line |-> 0] ELSE [file |-> "a.c", line |-> (CHOOSE l \in LineAt(a) : TRUE).line]
+FileName(id) == IF id = 1 THEN "a.c" ELSE "none"
+InnerLine(a) == IF LineAt(a) = {} THEN [file |-> "none", line |-> 0] ELSE LET l == CHOOSE l \in LineAt(a) : TRUE IN [file |-> FileName(l.file), line |-> l.line]
 RECURSIVE InlChain(_,_,_)
 InlChain(a, d, prevOrigin) ==                      \* frames for depths d, d+1, ... given the origin of depth d-1
    IF InlAt(d, a) = {} THEN <<[name |-> Origins[prevOrigin], file |-> InnerLine(a).file, line |-> InnerLine(a).line]>>
    ELSE LET i == CHOOSE x \in InlAt(d, a) : TRUE IN
-        <<[name |-> Origins[prevOrigin], file |-> "a.c", line |-> i.cline]>> \o InlChain(a, d + 1, i.origin)
+        <<[name |-> Origins[prevOrigin], file |-> FileName(i.cfile), line |-> i.cline]>> \o InlChain(a, d + 1, i.origin)
 NoSym == [fn |-> "none", base |-> 0, psize |-> 0, src |-> <<>>, inl |-> <<>>]
 Expected(a) ==
   IF FuncAt(a) # {} THEN
@@ -72,8 +77,9 @@ Expected(a) ==
          i0 == IF isA THEN InlAt(0, a) ELSE {}
          ln == IF isA THEN LineAt(a) ELSE {} IN
      [ fn |-> f.name, base |-> f.addr, psize |-> IF WinPsize(a) >= 0 THEN WinPsize(a) ELSE f.psize,
-       src |-> IF i0 # {} THEN LET i == CHOOSE x \in i0 : TRUE IN <<i.cline, InlBase(i, a)>>
-               ELSE IF ln # {} THEN LET l == CHOOSE x \in ln : TRUE IN <<l.line, l.addr>> ELSE <<>>,
+       \* the source location is that of the outermost record; when its file has no FILE record there is none (no fall-back)
+       src |-> IF i0 # {} THEN LET i == CHOOSE x \in i0 : TRUE IN (IF i.cfile = 1 THEN <<i.cline, InlBase(i, a)>> ELSE <<>>)
+               ELSE IF ln # {} THEN LET l == CHOOSE x \in ln : TRUE IN (IF l.file = 1 THEN <<l.line, l.addr>> ELSE <<>>) ELSE <<>>,
        inl |-> IF i0 # {} THEN InlChain(a, 1, (CHOOSE x \in i0 : TRUE).origin) ELSE <<>> ]
   ELSE IF PubFor(a) # {} THEN LET p == CHOOSE x \in PubFor(a) : TRUE IN [fn |-> p.name, base |-> p.addr, psize |-> p.psize, src |-> <<>>, inl |-> <<>>]
   ELSE NoSym
